@@ -62,6 +62,10 @@ def run(r: core.Run, prop, module, rule, want):
                 continue
             if o.startswith("K "):
                 continue
+            if o.startswith("B2 "):
+                if want == "total" and a != "same":
+                    out.append((i, "the graph reader's count is not the number of triples it loaded before the line it cannot read: " + a[:200], "impl"))
+                continue
             if o.startswith("B "):
                 if want == "total" and a != "same":
                     out.append((i, "the graph reader and triple.Parse disagree about a line when both are handed the same bounded literal builder: " + a[:200], "impl"))
@@ -103,6 +107,12 @@ def run(r: core.Run, prop, module, rule, want):
             p = base + ".replay.ops"
             # re-run the real parser on the text of the line
             kind = kv(line, "kind")
+            if line.startswith("B2 "):
+                rc = subprocess.run([core.BWH, "textone", "overlong:" + kv(line, "lines"), "00"], stdout=subprocess.PIPE, stderr=subprocess.PIPE, env=core.go_env(), timeout=120)
+                ans = rc.stdout.decode("utf-8", "replace").strip()
+                if rc.returncode != 0 or ans != "same":
+                    r.violation({"protocol": "text", "line": line, "what": "replayed text still fails: " + (ans or rc.stderr.decode()[-300:])})
+                return
             if line.startswith("B "):
                 rc = subprocess.run([core.BWH, "textone", "bounded:" + kv(line, "bound"), kv(line, "text")], stdout=subprocess.PIPE, stderr=subprocess.PIPE, env=core.go_env(), timeout=120)
                 ans = rc.stdout.decode("utf-8", "replace").strip()
